@@ -65,6 +65,27 @@ static std::string run(const std::vector<std::string>& t)
   try {
     if (op == "assign") { std::uintmax_t x = std::stoull(t[2], nullptr, 16); return to_hex(B(x)); }
     if (op == "signed") { long long x = std::stoll(t[2]); if (t.size() > 3 && t[3] == "int") return to_hex(B(int(x))); return to_hex(B(x)); }
+    if (op == "default") { B d; return to_hex(d); }
+    if (op == "limits") {
+      using L = std::numeric_limits<B>;
+      std::ostringstream os;
+      os << L::is_specialized << L::is_signed << L::is_integer << L::is_exact << L::is_bounded << L::is_modulo << " " << L::radix << " "
+         << to_hex(L::epsilon()) << to_hex(L::round_error()) << to_hex(L::infinity()) << to_hex(L::quiet_NaN()) << to_hex(L::denorm_min());
+      return os.str();
+    }
+    if (op == "mixl" || op == "mixr") {
+      // mixed operations with a built-in unsigned on either side: t[2] in {add,sub,mul,div,mod}, t[3] big, t[4] u64 hex
+      B a = from_hex<k>(t[3]); std::uintmax_t u = std::stoull(t[4], nullptr, 16);
+      const std::string& o = t[2];
+      bool l = (op == "mixl");
+      if (o == "add") return to_hex(l ? a + u : u + a);
+      if (o == "sub") return to_hex(l ? a - u : u - a);
+      if (o == "mul") return to_hex(l ? a * u : u * a);
+      if (o == "div") return to_hex(l ? a / u : u / a);
+      if (o == "mod") return to_hex(l ? a % u : u % a);
+      return "UNKNOWN-OP";
+    }
+    if (op == "stream") { B a = from_hex<k>(t[2]); std::ostringstream os; os << a << "|" << std::dec << 42; return os.str(); }
     if (op == "max") return to_hex(std::numeric_limits<B>::max());
     if (op == "min") return to_hex(std::numeric_limits<B>::min());
     if (op == "digits") return std::to_string(std::numeric_limits<B>::digits);
